@@ -60,6 +60,8 @@ structure DState where
   -- role lists as the accepted configuration requests left them (C05 is judged against
   -- these too, so a configuration change that silently fails to revoke a role is seen)
   roles : Option (List String × List String) := none
+  -- bids carried over by an accepted migration from a format-changing version (C06)
+  carried : List String := []
   pend : Pending := {}
   -- counters (evidence)
   steps : Nat := 0
@@ -167,55 +169,6 @@ def unmodelledCall : CallKind → Bool
      (match m.bidRate with | some r => Dec.isUnmodelled r | none => false)
   | .query _ => false
 
-/-! ### C03 / C07 converse conditions (what must be accepted) -/
-
-def feesPayable (s : State) (a : Ask) (b : Bid) (price : String) (size : Nat) : Bool :=
-  match Dec.parse price, Dec.parse b.price with
-  | some p, some bp =>
-    (match Dec.total p size with
-     | .ok grossD =>
-       let gross := grossD.trunc
-       (match s.info.askFee with
-        | some fi =>
-          (match Dec.parse fi.rate with
-           | some r => (match Dec.rateFee r grossD with | .ok f => decide (f ≤ gross) | .err _ => false)
-           | none => false)
-        | none => true) &&
-       (match calcFee b gross with
-        | .ok bf => (bf == 0 || s.info.bidFee.isSome) &&
-            (if Dec.lt p bp then
-               (match calcFee b (product bp size) with
-                | .ok of_ => of_ == 0 || decide (bf ≤ of_)
-                | .err _ => false)
-             else true)
-        | .err _ => false)
-     | .err _ => false) && (a.size == a.size)
-  | _, _ => false
-
-def C03_mustAccept (s : State) (c : Call) (askId bidId price : String) (size : Nat) : Bool :=
-  sane s && c.funds.isEmpty && isCanonicalUuid askId && isCanonicalUuid bidId && price != "" &&
-  C03_conds s c.sender askId bidId price size && C03_whole s bidId price size &&
-  (match s.asks.get? askId, loadBid s bidId, Dec.parse price with
-   | some a, some b, some p =>
-     exactMul p size &&
-     (match Dec.parse b.price with | some bp => exactMul bp size | none => false) &&
-     feeExactBid (.v3 b) && feesPayable s a b price size
-   | _, _, _ => false)
-
-def C07_askMustAccept (env : Env) (s : State) (c : Call) (id base quote price : String) (size : Nat) : Bool :=
-  infoSane s.info && C07_askConds env s c id base quote price size && base != "" && quote != "" && price != "" &&
-  (if env.restricted base then c.funds.isEmpty else decide (c.funds = [⟨base, size⟩]))
-
-def C07_bidMustAccept (env : Env) (s : State) (c : Call) (id base : String) (fee : Option Coin)
-    (price quote : String) (quoteSize size : Nat) : Bool :=
-  infoSane s.info && C07_bidConds env s c id base fee price quote quoteSize size &&
-  base != "" && quote != "" && price != "" && decide (size < LIM) && decide (quoteSize < LIM) &&
-  (match Dec.parse price, bidRate s.info with
-   | some p, some rate => exactMul p size && exactMul rate quoteSize
-   | _, _ => false) &&
-  (let due := quoteSize + feeAmt fee
-   if env.restricted quote then c.funds.isEmpty else decide (c.funds = [⟨quote, due⟩]))
-
 /-! ### per-step judgement -/
 
 structure Verdict where
@@ -233,6 +186,25 @@ def Verdict.check (v : Verdict) (prop name : String) (ok : Bool) : Verdict :=
 def denomsOf (contract : String) (s s' : State) (c : Call) (r : Response) : List String :=
   (c.funds.map (·.denom)) ++ msgDenoms contract r.msgs ++ [s.info.baseDenom] ++ s.info.quotes ++
   s.info.convertible ++ (s'.asks.map (·.2.base)) ++ (s.asks.map (·.2.base))
+
+/-- C09, ask side, on one accepted match: the ask fee reported (and paid to the ask-fee
+    account) is the configured rate × executed gross, halves away from zero -/
+def C09_askFeeOK (contract : String) (s : State) (bidId price : String) (size : Nat) (r : Response) : Bool :=
+  match loadBid s bidId, Dec.parse price with
+  | some b, some p =>
+    let fee := askFeeExact s.info (product p size)
+    numAttr r.attrs "ask_fee" == some fee &&
+    (fee == 0 ||
+      (match s.info.askFee with
+       | some fi => decide (credit contract r.msgs fi.account b.quote.denom ≥ fee)
+       | none => false))
+  | _, _ => false
+
+/-- keys of the old-format bids an accepted migration had to convert -/
+def carriedKeys (s : State) : List String :=
+  if inWindow s then
+    s.bids.filterMap fun kv => match kv.2 with | .v2 _ => some kv.1 | .v3 _ => none
+  else []
 
 /-- oracles for one accepted execute step on the implementation's data -/
 def judgeAccepted (env : Env) (s : State) (c : Call) (r : Response) (s' : State) (feeTracked : Bool)
@@ -277,6 +249,7 @@ def judgeAccepted (env : Env) (s : State) (c : Call) (r : Response) (s' : State)
       | _, _ => false
     let v := if exact then v.check "C03" "C03_whole" (C03_whole s b p sz)
              else v.check "C03" "C03_whole_inexact" (C03_whole s b p sz)
+    let v := if exact then v.check "C09" "C09_askFeeOK" (C09_askFeeOK ct s b p sz r) else v
     if exact then v.check "C02" "C02_matchOK" (C02_matchOK ct s a b p sz r s')
     else v.check "C02" "C02_matchOK_inexact" (C02_matchOK ct s a b p sz r s')
   | .cancelAsk id =>
@@ -306,7 +279,8 @@ def judgeAccepted (env : Env) (s : State) (c : Call) (r : Response) (s' : State)
   | .modify _ _ _ _ _ _ _ _ => v
 
 /-- oracles for a refused execute step -/
-def judgeRefused (env : Env) (s : State) (c : Call) (isProbe : Bool) (v : Verdict) : Verdict :=
+def judgeRefused (env : Env) (s : State) (c : Call) (isProbe : Bool) (carried : List String)
+    (v : Verdict) : Verdict :=
   match c.msg with
   | .executeMatch a b p sz =>
     v.check "C03" "C03_mustAccept" (!C03_mustAccept s c a b p sz)
@@ -320,6 +294,10 @@ def judgeRefused (env : Env) (s : State) (c : Call) (isProbe : Bool) (v : Verdic
         (!(match s.asks.get? id with | some a => a.owner == c.sender && c.funds.isEmpty | none => false))
     else v
   | .cancelBid id =>
+    let v := if isProbe && memS id carried then
+        -- a bid carried over by an accepted migration must be cancellable by its owner
+        v.check "C06" "C06_carriedOver_live"
+          (match s.bids.get? id with | some (.v2 _) => !c.funds.isEmpty | _ => true) else v
     if isProbe && sane s then
       v.check "C06" "C06_cancelBid_live"
         (!(match loadBid s id with | some b => b.owner == c.sender && c.funds.isEmpty | none => false))
@@ -415,7 +393,7 @@ def judge (d : DState) : Verdict × DState :=
                 (authorized { s with info := { s.info with approvers := aps, executors := exs } } c.sender c.msg)
             | none => v
           v.check "C11" "unknownKeys" (!hasUnknown p.deltas)
-        else judgeRefused env s c isProbe v
+        else judgeRefused env s c isProbe d.carried v
       let roles' := match d.roles, c.msg with
         | some (aps, exs), .modify ap ex _ _ _ _ _ _ =>
           if implOk && !isProbe then some (ap.getD aps, ex.getD exs) else d.roles
@@ -439,6 +417,8 @@ def judge (d : DState) : Verdict × DState :=
       let v := if implOk then
           let v := v.check "C14" "C14_migrateOK" (C14_migrateOK env s m s')
           let v := v.check "C15" "C15_bidsOK" (C15_bidsOK s s')
+          let v := v.check "C06" "C06_carriedOver_converted"
+            ((carriedKeys s).all fun k => match s'.bids.get? k with | some (.v3 _) => true | _ => false)
           let v := v.check "C14" "unknownKeys" (!hasUnknown p.deltas)
           if d.lastMig == some m then v.check "C14" "C14_idempotent" (stateEq s s') else v
         else v.check "C14" "C14_gate" true
@@ -451,7 +431,7 @@ def judge (d : DState) : Verdict × DState :=
         | some (aps, exs) => if implOk then some (m.approvers.getD aps, exs) else d.roles
         | none => none
       (v, { d with st := some s', shadow := sh, lastMig := if implOk then some m else d.lastMig,
-                   roles := roles' })
+                   roles := roles', carried := if implOk then d.carried ++ carriedKeys s else d.carried })
   | .query q =>
     match d.st with
     | none => ({}, d)
